@@ -5,6 +5,7 @@ import (
 	"encoding/binary"
 	"fmt"
 	"hash/crc32"
+	"io"
 	"strings"
 
 	"verif/core"
@@ -78,11 +79,33 @@ func c04Streams(level int) []Stream {
 	return out
 }
 
+// c04Judge decodes the damaged file through a *bytes.Reader and, for the default read schedule, also
+// through buffered sources (bufio with the default and with a 37-byte buffer: Peek / Discard fast
+// paths, fills that end off the 4-byte grid); a replay of the case repeats all of them.
 func c04Judge(r *core.Run, cs core.Case, s Stream, mutated []byte, site, desc string, mustErr bool, buf ...int) {
+	c04JudgeSrc(r, cs, s, mutated, site, desc, mustErr, 0, buf...)
+	if len(buf) == 0 || buf[0] == 0 {
+		for _, sk := range []int{2, 9} {
+			c04JudgeSrc(r, cs, s, mutated, site+" ("+sourceKindNames[sk]+")", desc+", source: "+sourceKindNames[sk], mustErr, sk)
+		}
+	}
+}
+
+func c04JudgeSrc(r *core.Run, cs core.Case, s Stream, mutated []byte, site, desc string, mustErr bool, sk int, buf ...int) {
 	out, err, proto, pan := xzDecode(mutated, 0, false)
 	if len(buf) > 0 && buf[0] > 0 {
 		out, err, proto, pan = libDecodeBuf("xz", mutated, 0, buf[0])
 		desc += fmt.Sprintf(", caller buffer %d", buf[0])
+	}
+	if sk != 0 {
+		pan = core.Guard(func() {
+			var rd io.Reader
+			rd, err = openReaderDict("xz", sourceOf(sk, mutated), 0)
+			if err != nil {
+				return
+			}
+			out, err, proto = readAll(rd, 4096, 256<<20)
+		})
 	}
 	cls := errClass(err)
 	switch {
